@@ -23,6 +23,7 @@ import (
 	"math/rand"
 	"os"
 	"os/exec"
+	"runtime"
 	"sort"
 	"strconv"
 	"strings"
@@ -42,7 +43,10 @@ type c20Case struct {
 	Call string `json:"call"`
 	Seed int64  `json:"seed"`
 	Size int    `json:"size"`
+	Cap  int    `json:"cap"` // spare capacity of the argument windows: 0 mixed per array, 1 all tight, 2 all generous
 }
+
+var c20CapMode int
 
 // an instantiated call
 type c20Inst struct {
@@ -80,19 +84,111 @@ func ib(xs []int) []uint64 {
 // single-threaded); used for the buffer-reuse history step
 var c20Floats []*[]float64
 
+// Every slice handed to the library is a WINDOW back[off : off+n : off+n+spare] of a larger
+// backing array: guard cells before and after hold a sentinel, the spare capacity behind the
+// visible part is tight (0), generous (enough for an append of every other argument) or
+// random.  The backing arrays are registered by the address of the window's first cell, and
+// a snapshot covers the WHOLE backing array (guards and spare capacity included) plus the
+// length, so an append that does not reallocate, a sort of arg[:n] reached through such an
+// append, or a write outside the window is seen.
+var c20BackF = map[*float64][]float64{}
+var c20BackI = map[*int][]int{}
+
+const c20Guard = 4
+const c20SentF = -12345.5
+const c20SentI = -777
+
+func c20Spare(rng *rand.Rand, n int) int {
+	k := rng.Intn(3)
+	if c20CapMode == 1 {
+		k = 0
+	} else if c20CapMode == 2 {
+		k = 1
+	}
+	switch k {
+	case 0:
+		return 0 // tight: cap == len
+	case 1:
+		return 2*n + 8 + rng.Intn(8) // generous: room for every other argument of the call
+	}
+	return rng.Intn(n + 2)
+}
+func houseF(rng *rand.Rand, xs []float64) []float64 {
+	n := len(xs)
+	spare := c20Spare(rng, n)
+	back := make([]float64, c20Guard+n+spare+c20Guard)
+	for i := range back {
+		back[i] = c20SentF
+	}
+	w := back[c20Guard : c20Guard+n : c20Guard+n+spare]
+	copy(w, xs)
+	if n+spare > 0 {
+		c20BackF[&back[c20Guard]] = back
+	}
+	return w
+}
+func houseI(rng *rand.Rand, xs []int) []int {
+	n := len(xs)
+	spare := c20Spare(rng, n)
+	back := make([]int, c20Guard+n+spare+c20Guard)
+	for i := range back {
+		back[i] = c20SentI
+	}
+	w := back[c20Guard : c20Guard+n : c20Guard+n+spare]
+	copy(w, xs)
+	if n+spare > 0 {
+		c20BackI[&back[c20Guard]] = back
+	}
+	return w
+}
+func wholeF(xs []float64) []float64 {
+	if cap(xs) > 0 {
+		if b, ok := c20BackF[&xs[:1][0]]; ok {
+			return b
+		}
+	}
+	return xs[:cap(xs)]
+}
+func wholeI(xs []int) []int {
+	if cap(xs) > 0 {
+		if b, ok := c20BackI[&xs[:1][0]]; ok {
+			return b
+		}
+	}
+	return xs[:cap(xs)]
+}
+
+// in-place scramblers of the registered argument arrays (history step "same buffers, other
+// data"): each rewrites one argument array deterministically, keeping it in its domain
+var c20Scramble []func() func() // each returns the function that restores the old contents
+
 func snapF(p *[]float64) func() []uint64 {
 	c20Floats = append(c20Floats, p)
-	return func() []uint64 { return append([]uint64{uint64(len(*p))}, fb((*p)[:cap(*p)])...) }
+	c20Scramble = append(c20Scramble, func() func() {
+		saved := append([]float64(nil), (*p)...)
+		for j := range *p {
+			(*p)[j] = saved[len(saved)-1-j]*0.5 + float64(j%3)
+		}
+		return func() { copy(*p, saved) }
+	})
+	return func() []uint64 { return append([]uint64{uint64(len(*p))}, fb(wholeF(*p))...) }
 }
 func snapI(p *[]int) func() []uint64 {
-	return func() []uint64 { return append([]uint64{uint64(len(*p))}, ib((*p)[:cap(*p)])...) }
+	c20Scramble = append(c20Scramble, func() func() {
+		saved := append([]int(nil), (*p)...)
+		for j := range *p {
+			(*p)[j] = saved[len(saved)-1-j]
+		}
+		return func() { copy(*p, saved) }
+	})
+	return func() []uint64 { return append([]uint64{uint64(len(*p))}, ib(wholeI(*p))...) }
 }
 func snapNone() []uint64                 { return nil }
 func flatG(g graph.IntGraph) []uint64 {
 	var r []uint64
 	for _, o := range g {
 		r = append(r, uint64(len(o)))
-		r = append(r, ib(o)...)
+		r = append(r, ib(wholeI(o))...)
 	}
 	return r
 }
@@ -105,7 +201,28 @@ func flatGraph(g graph.Graph) []uint64 {
 	}
 	return r
 }
-func snapG(g graph.IntGraph) func() []uint64 { return func() []uint64 { return flatG(g) } }
+func snapG(g graph.IntGraph) func() []uint64 {
+	c20Scramble = append(c20Scramble, func() func() { // other edges in the same adjacency arrays
+		n := len(g)
+		saved := make([][]int, n)
+		for i := range g {
+			o := g[i]
+			saved[i] = append([]int(nil), o...)
+			for a, b := 0, len(o)-1; a < b; a, b = a+1, b-1 {
+				o[a], o[b] = o[b], o[a]
+			}
+			for k := range o {
+				o[k] = (o[k] + 1 + k) % n
+			}
+		}
+		return func() {
+			for i := range g {
+				copy(g[i], saved[i])
+			}
+		}
+	})
+	return func() []uint64 { return flatG(g) }
+}
 func eqU(a, b []uint64) bool {
 	if len(a) != len(b) {
 		return false
@@ -130,28 +247,22 @@ func errBits(err error) uint64 {
 
 // unsorted data with ties, so that any internal sort or reordering is visible
 func c20Data(rng *rand.Rand, n int) []float64 {
-	// spare capacity (filled with a sentinel) behind the visible part
-	spare := rng.Intn(n + 2)
-	back := make([]float64, n+spare)
-	for i := range back {
-		back[i] = -12345.5
-	}
-	xs := back[:n]
+	xs := make([]float64, n)
 	for i := range xs {
 		xs[i] = float64(rng.Intn(2*n+3)) / 4
 	}
 	// make sure it is not sorted (n >= 3)
-	if n >= 3 && sort.Float64sAreSorted(xs) {
+	if n >= 2 && sort.Float64sAreSorted(xs) {
 		xs[0], xs[n-1] = xs[n-1]+1, xs[0]-1
 	}
-	return xs
+	return houseF(rng, xs)
 }
 func c20Weights(rng *rand.Rand, n int) []float64 {
 	ws := make([]float64, n)
 	for i := range ws {
 		ws[i] = float64(1+rng.Intn(50)) + float64(i)/1024 // distinct, so a pair-sort moves them visibly
 	}
-	return ws
+	return houseF(rng, ws)
 }
 func c20Graph(rng *rand.Rand, n int) graph.IntGraph {
 	g := make(graph.IntGraph, n)
@@ -173,6 +284,9 @@ func c20Graph(rng *rand.Rand, n int) graph.IntGraph {
 		if len(g[0]) >= 2 && sort.IntsAreSorted(g[0]) {
 			g[0][0], g[0][len(g[0])-1] = g[0][len(g[0])-1], g[0][0]
 		}
+	}
+	for i := range g {
+		g[i] = houseI(rng, g[i])
 	}
 	return g
 }
@@ -259,6 +373,7 @@ func init() {
 			xs[i] = float64(i) + float64(rng.Intn(8))/16
 		}
 		rng.Shuffle(n, func(i, j int) { xs[i], xs[j] = xs[j], xs[i] })
+		xs = houseF(rng, xs)
 		ys := c20Data(rng, n)
 		deg := rng.Intn(3)
 		span := 0.5 + 0.5*rng.Float64()
@@ -282,6 +397,7 @@ func init() {
 			xs[i] = float64(i)/4 - 1
 		}
 		rng.Shuffle(n, func(i, j int) { xs[i], xs[j] = xs[j], xs[i] })
+		xs = houseF(rng, xs)
 		ys := c20Data(rng, n)
 		ws := c20Weights(rng, n)
 		deg := rng.Intn(4)
@@ -301,6 +417,7 @@ func init() {
 			xs[i] = float64(i)/4 - 1
 		}
 		rng.Shuffle(n, func(i, j int) { xs[i], xs[j] = xs[j], xs[i] })
+		xs = houseF(rng, xs)
 		ys := c20Data(rng, n)
 		var ws []float64
 		if rng.Intn(2) == 0 {
@@ -328,6 +445,9 @@ func init() {
 		}
 		if !same && n > 0 {
 			g2[n-1] = append(g2[n-1], 0)
+		}
+		for i := range g2 {
+			g2[i] = houseI(rng, g2[i])
 		}
 		return one(&c20Inst{[]func() []uint64{snapG(g1), snapG(g2)}, func() []uint64 {
 			if graph.Equal(g1, g2) {
@@ -377,6 +497,7 @@ func init() {
 					}
 				}
 			}
+			nodes = houseI(rng, nodes)
 			snapE := func() []uint64 {
 				var r []uint64
 				for _, e := range edges {
@@ -572,7 +693,7 @@ func init() {
 		return func() []uint64 { return append(fb(vec.Linspace(-1, 3, n)), fb(vec.Logspace(0, 3, n, 10))...) }
 	})
 	add(c20Call{"stats.UDist.{PMF,CDF}", 11, 2, func(rng *rand.Rand, n int) func() *c20Inst {
-		t := []int{2, 1, 3, 1, 2}
+		t := houseI(rng, []int{2, 1, 3, 1, 2})
 		d := stats.UDist{N1: 4, N2: 5, T: t}
 		u := float64(rng.Intn(41)) / 2
 		none := []float64(nil)
@@ -865,9 +986,11 @@ func hashU(r []uint64) uint64 {
 
 // c20FreshRef runs the case in a fresh child process (one per case, so the child has no
 // history whatsoever) and returns the hash of its result.
-var c20FreshRef = func(raw []byte) (uint64, error) {
+// mode "1": the case's call as the first call of the process; mode "2": the argument arrays
+// are first overwritten with the second contents (the scramblers), then the call is made
+var c20FreshRef = func(raw []byte, mode string) (uint64, error) {
 	cmd := exec.Command(os.Args[0], "run", "C20")
-	cmd.Env = append(os.Environ(), "C20_FRESH=1")
+	cmd.Env = append(os.Environ(), "C20_FRESH="+mode)
 	cmd.Stdin = bytes.NewReader(append(append([]byte{}, raw...), '\n'))
 	out, err := cmd.Output()
 	if err != nil {
@@ -893,32 +1016,174 @@ func c20Call1(inst *c20Inst) (r []uint64) {
 	return inst.call()
 }
 
+// API names exercised by the hand-written entries above (the reflect:* entries add, at run
+// time, every method they call)
+var c20StaticCovered = []string{
+	"stats.MannWhitneyUTest", "stats.Sample.Quantile", "stats.Sample.IQR", "stats.QuantileCIResult.SampleCI",
+	"fit.LOESS", "fit.PolynomialRegression", "fit.LinearLeastSquares", "graph.Equal", "graphalg.SCC",
+	"graphalg.SCCGraph.NumNodes", "graphalg.SCCGraph.Subnodes", "graphalg.SCCGraph.Out", "graphalg.SCCGraph.SubnodeComponent",
+	"graph.SubgraphKeep", "graph.SubgraphRemove", "graphalg.PreOrder", "graphalg.PostOrder", "graphalg.Euler.Visit",
+	"graphalg.IDom", "graphalg.Dom", "graphalg.DomFrontier", "graphalg.DomTree.NumNodes", "graphalg.DomTree.Out",
+	"graph.MakeBiGraph", "graphalg.SimplifyMulti", "graphout.Dot.Sprint",
+	"stats.Mean", "stats.Variance", "stats.StdDev", "stats.GeoMean", "stats.Bounds", "stats.MeanCI",
+	"stats.Sample.Mean", "stats.Sample.Variance", "stats.Sample.StdDev", "stats.Sample.GeoMean", "stats.Sample.Sum",
+	"stats.Sample.Weight", "stats.Sample.Bounds", "stats.Sample.MeanCI", "stats.Sample.Copy",
+	"stats.PairedTTest", "vec.Concat", "vec.Map", "vec.Sum", "stats.UDist.PMF", "stats.UDist.CDF",
+	"stats.InvCDF", "stats.Rand", "stats.KDE.PDF", "stats.KDE.CDF", "stats.KDE.Bounds",
+	"stats.Sample.Sort", "graphalg.Reverse", "graphalg.NodeMarks.Mark", "graphalg.NodeMarks.Unmark",
+	"stats.LinearHist.Add", "stats.LogHist.Add",
+}
+
+// API functions that cannot be called from inside the harness, with the reason (reported in
+// the machinery note of every run)
+var c20Waived = map[string]string{
+	"graphout.Dot.Print": "writes to os.Stdout, which is the harness's own result channel; it is Fprint(os.Stdout, g) (dot.go) and Fprint/Sprint are exercised",
+}
+
+// the API surface, and the part of it that no table entry exercises
+func c20Uncovered() (api []apiFunc, uncovered []apiFunc, err error) {
+	api, err = c20APISurface()
+	if err != nil {
+		return nil, nil, err
+	}
+	cov := map[string]bool{}
+	for _, n := range c20StaticCovered {
+		cov[n] = true
+	}
+	for n := range c20Waived {
+		cov[n] = true
+	}
+	for _, r := range c20Receivers {
+		called, _ := c20ReflectMethods(r)
+		for _, n := range called {
+			cov[n] = true
+		}
+	}
+	for _, a := range api {
+		if !cov[a.Name] {
+			uncovered = append(uncovered, a)
+		}
+	}
+	return api, uncovered, nil
+}
+
+// "@api" (the scan itself) and "@unlisted:<name>" cases: pseudo-routine 30; det = 0 reports an
+// exported function/method in the property's domain that no table entry exercises
+// "@warmup" (emitted first when C20_CONC_FIRST=1, i.e. in the -race twin): the FIRST use of
+// every table entry in this process is made by 16 goroutines at once, at three sizes, before
+// any sequential call has been made - so an unsynchronised lazy initialisation anywhere below
+// the API is executed concurrently and the race detector sees it.  det = all goroutines of an
+// entry returned the same result.
+func c20RunWarmup() (*Line, error) {
+	ok := true
+	for ti := range c20Table {
+		for _, size := range []int{4, 12, 60} {
+			c20CapMode = 0
+			fac := c20Table[ti].build(rand.New(rand.NewSource(int64(1000*ti+size))), size)
+			insts := make([]*c20Inst, c20Threads)
+			for i := range insts {
+				insts[i] = fac()
+			}
+			res := make([][]uint64, c20Threads)
+			var wg sync.WaitGroup
+			for i := range insts {
+				wg.Add(1)
+				go func(i int) { defer wg.Done(); res[i] = c20Call1(insts[i]) }(i)
+			}
+			wg.Wait()
+			for i := range res {
+				if !eqU(res[i], res[0]) {
+					ok = false
+					fmt.Fprintf(os.Stderr, "[C20] warm-up: concurrent first calls of %s (size %d) disagree\n", c20Table[ti].name, size)
+				}
+			}
+		}
+	}
+	l := &Line{}
+	l.I(20).I(30).I(0).B(true).B(ok).I(len(c20Table)).Int(0).I(3)
+	return l, nil
+}
+
+func c20RunAPI(c c20Case) (*Line, error) {
+	if c.Call == "@warmup" {
+		return c20RunWarmup()
+	}
+	api, unc, err := c20Uncovered()
+	if err != nil {
+		return nil, fmt.Errorf("API scan failed: %v", err)
+	}
+	ok := true
+	if strings.HasPrefix(c.Call, "@unlisted:") {
+		name := strings.TrimPrefix(c.Call, "@unlisted:")
+		for _, u := range unc {
+			if u.Name == name {
+				ok = false
+				fmt.Fprintf(os.Stderr, "[C20] exported %s (%s) is exercised by no entry of the table\n", u.Name, u.Why)
+			}
+		}
+	}
+	l := &Line{}
+	l.I(20).I(30).I(0).B(ok).B(true).I(len(api)).Int(0).I(len(unc))
+	return l, nil
+}
+
 func c20Run(raw []byte) (*Line, error) {
 	var c c20Case
 	if err := json.Unmarshal(raw, &c); err != nil {
 		return nil, err
 	}
+	if strings.HasPrefix(c.Call, "@") {
+		return c20RunAPI(c)
+	}
 	idx, call := c20Find(c.Call)
 	if call == nil {
 		return nil, fmt.Errorf("unknown call %q", c.Call)
 	}
-	if c.Size < 3 || c.Size > 400 {
+	if c.Size < 1 || c.Size > 400 {
 		return nil, fmt.Errorf("bad size")
 	}
 	mk := func() func() *c20Inst { return call.build(rand.New(rand.NewSource(c.Seed)), c.Size) }
 	// 1. mutation
-	c20Floats = nil
+	if c.Cap < 0 || c.Cap > 2 {
+		return nil, fmt.Errorf("bad cap mode")
+	}
+	c20CapMode = c.Cap
+	c20Floats, c20Scramble = nil, nil
+	c20BackF, c20BackI = map[*float64][]float64{}, map[*int][]int{}
 	inst := mk()()
-	floats := c20Floats
+	scramblers := c20Scramble
 	if len(inst.args) != call.nargs {
 		return nil, fmt.Errorf("table error: %s tracks %d arrays, routine has %d", call.name, len(inst.args), call.nargs)
+	}
+	// C20_CONC_FIRST=1 (set for the -race twin): the very first use of the routine in this
+	// case happens CONCURRENTLY, on instances of their own, so that an unsynchronised lazy
+	// initialisation is exercised by several goroutines at once
+	var early [][]uint64
+	if os.Getenv("C20_CONC_FIRST") == "1" {
+		efac := mk()
+		einst := make([]*c20Inst, c20Threads)
+		for i := range einst {
+			einst[i] = efac()
+		}
+		early = make([][]uint64, c20Threads)
+		var ewg sync.WaitGroup
+		for i := range einst {
+			ewg.Add(1)
+			go func(i int) { defer ewg.Done(); early[i] = c20Call1(einst[i]) }(i)
+		}
+		ewg.Wait()
 	}
 	before := make([][]uint64, len(inst.args))
 	for i, a := range inst.args {
 		before[i] = a()
 	}
+	if os.Getenv("C20_FRESH") == "2" {
+		for _, sc := range scramblers {
+			sc()
+		}
+	}
 	r1 := c20Call1(inst)
-	if os.Getenv("C20_FRESH") == "1" {
+	if os.Getenv("C20_FRESH") != "" {
 		// reference mode: this process has made no other call; report only a hash of the result
 		l := &Line{}
 		l.I(20).U(hashU(r1))
@@ -935,26 +1200,39 @@ func c20Run(raw []byte) (*Line, error) {
 		c20Call1(o.build(rand.New(rand.NewSource(hr.Int63())), 3+hr.Intn(20))())
 	}
 	det := eqU(r1, c20Call1(mk()()))
-	// ... also when the SAME buffers held different data during an earlier call (a cache keyed
-	// by slice identity would go stale): overwrite the argument arrays in place, call, restore
-	// the original contents, call again
+	// ... also when the SAME buffers hold different data at a later call (a cache keyed by slice
+	// identity would go stale): overwrite the argument arrays in place with other values v2 and
+	// call again; the result must equal, bit for bit, that of a call on NEWLY ALLOCATED arrays
+	// holding v2 which the library has never seen; then restore the contents and call once more
 	if det && call.routine < 20 {
-		saved := make([][]float64, len(floats))
-		for i, p := range floats {
-			saved[i] = append([]float64(nil), (*p)...)
-			for j := range *p {
-				(*p)[j] = saved[i][len(saved[i])-1-j]*0.5 + float64(j%3)
+		c20Call1(inst) // the library has just seen these arrays with the old contents
+		var restore []func()
+		for _, sc := range scramblers {
+			restore = append(restore, sc())
+		}
+		r2 := c20Call1(inst)
+		c20Scramble = nil
+		ref := mk()()
+		for _, sc := range c20Scramble {
+			sc()
+		}
+		det = eqU(r2, c20Call1(ref))
+		// ... and what a FRESH process computes for the second contents
+		if det && c20FreshRef != nil && os.Getenv("C20_NOFRESH") != "1" {
+			h, err := c20FreshRef(raw, "2")
+			if err != nil {
+				return nil, err
 			}
+			det = h == hashU(r2)
 		}
-		c20Call1(inst)
-		for i, p := range floats {
-			copy(*p, saved[i])
+		for _, un := range restore {
+			un()
 		}
-		det = eqU(r1, c20Call1(inst))
+		det = det && eqU(r1, c20Call1(inst))
 	}
 	// ... and the result must be what a FRESH process (no call made before) computes
 	if det && c20FreshRef != nil && os.Getenv("C20_NOFRESH") != "1" {
-		h, err := c20FreshRef(raw)
+		h, err := c20FreshRef(raw, "1")
 		if err != nil {
 			return nil, err
 		}
@@ -977,19 +1255,45 @@ func c20Run(raw []byte) (*Line, error) {
 		sharedBefore[i] = a()
 	}
 	res := make([][]uint64, c20Threads)
+	// schedule variety, chosen by the case seed: GOMAXPROCS 1 / 4 / 16, and the threads are
+	// released together (barrier), staggered (thread i yields i*7 times first) or as a
+	// pipeline (thread i starts when thread i-1 has started its call)
+	procs := []int{1, 4, 16}[int(uint64(c.Seed)%3)]
+	mode := int(uint64(c.Seed) / 3 % 3)
+	oldProcs := runtime.GOMAXPROCS(procs)
 	var wg sync.WaitGroup
 	start := make(chan struct{})
+	started := make([]chan struct{}, c20Threads+1)
+	for i := range started {
+		started[i] = make(chan struct{})
+	}
+	close(started[0])
 	for i := range insts {
 		wg.Add(1)
 		go func(i int) {
 			defer wg.Done()
 			<-start
+			switch mode {
+			case 1:
+				for k := 0; k < 7*i; k++ {
+					runtime.Gosched()
+				}
+			case 2:
+				<-started[i]
+			}
+			close(started[i+1])
 			res[i] = c20Call1(insts[i])
 		}(i)
 	}
 	close(start)
 	wg.Wait()
+	runtime.GOMAXPROCS(oldProcs)
 	conc := true
+	for i := range early {
+		if !eqU(early[i], r1) {
+			conc = false
+		}
+	}
 	for i := range res {
 		if !eqU(res[i], r1) {
 			conc = false
@@ -1010,6 +1314,25 @@ func c20Run(raw []byte) (*Line, error) {
 }
 
 func c20Gen(tier string, rng *rand.Rand, emit func(interface{})) {
+	// the API surface of the tree under test: one case for the scan, one per uncovered function
+	api, unc, err := c20Uncovered()
+	if os.Getenv("C20_LIST_API") != "" {
+		fmt.Fprintln(os.Stderr, "api surface:", len(api), "uncovered:", len(unc), err)
+		for _, a := range api {
+			fmt.Fprintln(os.Stderr, a.Name, "\t", a.Why)
+		}
+		for _, a := range unc {
+			fmt.Fprintln(os.Stderr, "UNCOVERED", a.Name, "\t", a.Why)
+		}
+		return
+	}
+	if os.Getenv("C20_CONC_FIRST") == "1" {
+		emit(c20Case{Call: "@warmup", Size: 3})
+	}
+	emit(c20Case{Call: "@api", Size: len(api)})
+	for _, u := range unc {
+		emit(c20Case{Call: "@unlisted:" + u.Name, Size: 3})
+	}
 	reps := 6
 	if tier == "thorough" {
 		reps = 60
@@ -1020,7 +1343,10 @@ func c20Gen(tier string, rng *rand.Rand, emit func(interface{})) {
 			if r%3 == 2 {
 				size = 30 + rng.Intn(120)
 			}
-			emit(c20Case{Call: c.name, Seed: rng.Int63(), Size: size})
+			if r == 3 || r == 4 {
+				size = 5 - r // 2 and 1: the smallest inputs, special-cased paths
+			}
+			emit(c20Case{Call: c.name, Seed: rng.Int63(), Size: size, Cap: (r + 2) % 3})
 			if strings.HasPrefix(c.name, "mathx.") { // scalar calls are cheap: many more parameter draws
 				for x := 0; x < 15; x++ {
 					emit(c20Case{Call: c.name, Seed: rng.Int63(), Size: size})
